@@ -1,11 +1,16 @@
 #![allow(dead_code)]
 mod alloc;
 mod c12;
+mod check;
 mod closures;
+mod dir;
 mod ebrmon;
 mod fam_chain;
 mod fam_list;
 mod fam_queue;
+mod fam_sweep;
+mod fam_ebr;
+mod minimize;
 mod gen;
 mod interp;
 mod json;
@@ -59,8 +64,87 @@ fn main() {
             }
             println!("{:?} in {:?}", counts, t0.elapsed());
         }
+        Some("check") => {
+            let prop = args.get(2).cloned().unwrap_or_default();
+            let tier = args.get(3).cloned().unwrap_or_else(|| std::env::var("VERIF_TIER").unwrap_or_else(|_| "quick".into()));
+            std::process::exit(check::main_check(&prop, &tier));
+        }
+        Some("replay") => {
+            std::process::exit(minimize::replay(args.get(2).map(|s| s.as_str()).unwrap_or("")));
+        }
+        Some("minimize") => {
+            let path = args.get(2).cloned().unwrap_or_default();
+            let j = json::J::parse(&std::fs::read_to_string(&path).expect("read")).expect("json");
+            let desc = ops::RunDesc::from_json(&j).expect("desc");
+            let sig = j.get("expected").map(|e| e.gets("signature").to_string()).unwrap_or_default();
+            let budget: f64 = args.get(3).and_then(|s| s.parse().ok()).unwrap_or(45.0);
+            let (best, res, tries, ok) = minimize::minimize(desc, &sig, json::J::Null, budget);
+            println!("reproduced={} tries={} threads={} ops={} segments={}", ok, tries, best.threads.len(), best.threads.iter().map(|t| t.ops.len() + t.tls_ops.len()).sum::<usize>(), best.schedule.as_ref().map(|s| s.len()).unwrap_or(0));
+            for t in &best.threads {
+                println!("  phase {} {}: {}", t.phase, t.name, t.ops.iter().map(|o| format!("{}({},{},{},{})", o.k.name(), o.a, o.b, o.c, o.d)).collect::<Vec<_>>().join(" "));
+            }
+            println!("  schedule: {:?}", best.schedule);
+            println!("  {}", res.gets("detail"));
+            if let Some(t) = res.get("trace_tail") {
+                println!("  trace: {}", t.as_arr().map(|a| a.iter().filter_map(|x| x.as_str()).collect::<Vec<_>>().join(" ")).unwrap_or_default());
+            }
+        }
+        Some("rerun") => {
+            // circ-sim rerun <file> <n> [noschedule]: run a description repeatedly, show outcome distribution
+            let path = args.get(2).cloned().unwrap_or_default();
+            let j = json::J::parse(&std::fs::read_to_string(&path).expect("read")).expect("json");
+            let mut desc = ops::RunDesc::from_json(&j).expect("desc");
+            let n: u64 = args.get(3).and_then(|s| s.parse().ok()).unwrap_or(10);
+            if args.get(4).map(|s| s.as_str()) == Some("noschedule") {
+                desc.schedule = None;
+                desc.buggify_script = None;
+            }
+            let mut counts = std::collections::BTreeMap::new();
+            for _ in 0..n {
+                let r = runner::fork_run(&desc);
+                let key = format!("{:?} sig={} steps={} hash={}", r.res, r.signature(), r.json.getu("steps"), r.json.getu("hash"));
+                *counts.entry(key).or_insert(0u64) += 1;
+            }
+            for (k, v) in counts {
+                println!("{:6} x {}", v, k);
+            }
+        }
+        Some("fam") => {
+            // circ-sim fam <property> <family> <seed0> <n>: run one family, print a summary
+            let prop = args.get(2).cloned().unwrap_or_default();
+            let fam = args.get(3).cloned().unwrap_or_default();
+            let s0: u64 = args.get(4).and_then(|s| s.parse().ok()).unwrap_or(1);
+            let n: u64 = args.get(5).and_then(|s| s.parse().ok()).unwrap_or(1);
+            let t0 = std::time::Instant::now();
+            let mut counts = std::collections::BTreeMap::new();
+            for seed in s0..s0 + n {
+                let desc = gen::generate(&prop, &fam, seed);
+                let r = runner::fork_run(&desc);
+                let mut keys = vec![match &r.res {
+                    runner::Res::Ok => "ok".to_string(),
+                    runner::Res::Violation => format!("V {}", r.json.gets("signature")),
+                    other => format!("{:?} {}", other, r.json.gets("detail")),
+                }];
+                if let Some(e) = r.json.get("extra") {
+                    for s in e.geta("soft").iter().skip(1) {
+                        keys.push(format!("V {}", s.gets("signature")));
+                    }
+                }
+                if n == 1 {
+                    println!("{}", desc.to_json().pretty());
+                    println!("{}", r.json.pretty());
+                }
+                for key in keys {
+                    if n > 1 && key != "ok" && !counts.contains_key(&key) {
+                        println!("seed {} -> {} :: {}", seed, key, r.json.gets("detail"));
+                    }
+                    *counts.entry(key).or_insert(0u64) += 1;
+                }
+            }
+            println!("{:?} in {:?}", counts, t0.elapsed());
+        }
         _ => {
-            eprintln!("usage: circ-sim one <profile> <seed> [n]");
+            eprintln!("usage: circ-sim check <property> [quick|thorough] | replay <file> | fam <property> <family> <seed0> <n> | one <profile> <seed> [n]");
             std::process::exit(2);
         }
     }
